@@ -715,3 +715,50 @@ Proof.
   - intros x. cbn [rl_ref]. rewrite H1. reflexivity.
   - intros x. cbn [rl_ref]. unfold runs_pred. cbn zeta. destruct (runs_rank F (x + 1) =? 0); [reflexivity|]. apply H1.
 Qed.
+
+(* ================================================================ 5. nth beyond what is left (C09) *)
+
+(* after ANY history, nth(n) with n >= the number of items left answers None, the following next() answers None and
+   the length is 0 - in the specification, hence (rl_iters_deque) in the three iterators *)
+Lemma dq_nth_beyond {A} (l : list A) cs n : lenA (fst (dq_run l cs)) <= n ->
+  snd (dq_run l (cs ++ [Nth n; Next; Len])) = snd (dq_run l cs) ++ [Item None; Item None; Count 0].
+Proof.
+  intros H. rewrite dq_run_app. cbn [snd]. f_equal.
+  rewrite !dq_run_cons. cbn [dq_run snd fst].
+  rewrite (dq_step_nth_none _ n H). cbn [fst snd]. rewrite !dq_step_nil. reflexivity.
+Qed.
+
+Lemma fwd_app_tail cs n : Forall call_fwd cs -> Forall call_fwd (cs ++ [Nth n; Next; Len]).
+Proof. intros H. apply Forall_app. split; [exact H|]. repeat constructor. Qed.
+
+Theorem rl_nth_beyond m R L :
+  runs_sorted 0 R -> runs_end R <= L -> L <= 2 ^ 64 - 1 -> lenN R < 2 ^ 56 ->
+  exists v,
+    rl_build m (rl_ops R L) = Ok (v, map (fun _ => true) R ++ [true]) /\
+    (forall cs n, Forall call_fwd cs -> lenA (fst (dq_run (ones_all (maximal R) 0) cs)) <= n ->
+       exists s s', rl_one_iter v = Ok s /\
+         it_run (rl_oi_step m v) s (cs ++ [Nth n; Next; Len]) =
+           Ok (s', snd (dq_run (ones_all (maximal R) 0) cs) ++ [Item None; Item None; Count 0])) /\
+    (forall cs n, Forall call_fwd cs -> lenA (fst (dq_run (zeros_all (maximal R) L 0) cs)) <= n ->
+       exists s s', rl_zero_iter m v = Ok s /\
+         it_run (rl_zi_step m v) s (cs ++ [Nth n; Next; Len]) =
+           Ok (s', snd (dq_run (zeros_all (maximal R) L 0) cs) ++ [Item None; Item None; Count 0])) /\
+    (forall cs n, Forall call_fwd cs -> lenA (fst (dq_run (bits_all (maximal R) L 0) cs)) <= n ->
+       exists s s', rl_iter v = Ok s /\
+         it_run (rl_bi_step m v) s (cs ++ [Nth n; Next; Len]) =
+           Ok (s', snd (dq_run (bits_all (maximal R) L 0) cs) ++ [Item None; Item None; Count 0])).
+Proof.
+  intros Hs He HL Hn. destruct (rl_iters_deque m R L Hs He HL Hn) as (v & Hb & Hbi & Hoi & Hzi).
+  exists v. split; [exact Hb|]. split; [|split].
+  - intros cs n Hcs Hlen.
+    pose proof (Hoi EOne _ (cs ++ [Nth n; Next; Len]) eq_refl (fwd_app_tail cs n Hcs)) as H.
+    cbn [rl_oi_entry] in H. destruct H as (s & s' & E1 & E2). exists s, s'. split; [exact E1|].
+    rewrite E2, (dq_nth_beyond _ cs n Hlen). reflexivity.
+  - intros cs n Hcs Hlen.
+    pose proof (Hzi EZero _ (cs ++ [Nth n; Next; Len]) eq_refl (fwd_app_tail cs n Hcs)) as H.
+    cbn [rl_zi_entry] in H. destruct H as (s & s' & E1 & E2). exists s, s'. split; [exact E1|].
+    rewrite E2, (dq_nth_beyond _ cs n Hlen). reflexivity.
+  - intros cs n Hcs Hlen.
+    destruct (Hbi (cs ++ [Nth n; Next; Len]) (fwd_app_tail cs n Hcs)) as (s & s' & E1 & E2). exists s, s'.
+    split; [exact E1|]. rewrite E2, (dq_nth_beyond _ cs n Hlen). reflexivity.
+Qed.
